@@ -82,6 +82,12 @@ func init() {
 		sh := in.wideShift(OpLShr, in.wideOf(a[0]), a[1].(*Term))
 		return in.st.ZExt(in.st.Extract(sh, 0, 0), 8)
 	})
+	reg(w256T+"BitLen", func(in *Interp, c *Frame, fn *ssa.Function, a []Value) Value {
+		st := in.st
+		x := in.wideOf(a[0])
+		lz := st.LeadingZeros(x)
+		return st.Extract(st.Bin(OpSub, st.Const(256, 256), lz), 63, 0)
+	})
 	reg(vxPkg+"W256Mask", func(in *Interp, c *Frame, fn *ssa.Function, a []Value) Value {
 		st := in.st
 		n := a[0].(*Term)
